@@ -43,9 +43,9 @@ var permitSpec = core.ResourceSpec{
 func c16(c *Ctx) {
 	p, r := c.P, c.R
 	r.Technique = "typestate (path search over go/ssa with defer/closure/flag/channel-handoff modelling) for every permit from acquisition to every exit, with per-function ownership summaries"
-	r.Explanation = "Decides that every transfer slot (Permit) obtained from the uTP controller is released or handed off on every control-flow exit: (R1) acquisition sites are the call sites of the functions wrapping semaphore.TryAcquire; (R2) from each acquisition, and in every function that takes ownership of a permit (parameter, captured variable, queue element), every path to every exit passes a Release, a deferred Release (including the flag-guarded deferred closure, evaluated with the flag's constant-propagated value per exit), a hand-off to a function/goroutine that itself discharges it, or a successful channel send of the carrier (the non-blocking select's default edge does not count); receivers of that channel are then obligated; (R3) the release action runs only under a successful compare-and-swap, semaphore.Release is called only from the actions built next to the matching TryAcquire with the same weight; (R4) the no-op permit is constructed only by the acquisition wrappers and the operator RPC entry points; (R5) every uTP call that waits for the peer (accept, dial, read-to-EOF, write) is given a context made by context.WithTimeout/WithDeadline, so a holder reaches its release when the peer stays silent; (R6) the fields that hold the semaphores and their holder are assigned only while their owner is being built (the limiter is never replaced while permits are out) and the semaphore holder is created only where the shared uTP transport service is built (one limiter per socket, not per sub-network). Not decided: peak concurrency as a number; behaviour of uTP timeouts; slots held by requests still queued at shutdown (observation)."
+	r.Explanation = "Decides that every transfer slot (Permit) obtained from the uTP controller is released or handed off on every control-flow exit: (R1) acquisition sites are the call sites of the functions wrapping semaphore.TryAcquire; (R2) from each acquisition, and in every function that takes ownership of a permit (parameter, captured variable, queue element), every path to every exit passes a Release, a deferred Release (including the flag-guarded deferred closure, evaluated with the flag's constant-propagated value per exit), a hand-off to a function/goroutine that itself discharges it, or a successful channel send of the carrier (the non-blocking select's default edge does not count); receivers of that channel are then obligated; (R3) the release action runs only under a successful compare-and-swap, semaphore.Release is called only from the actions built next to the matching TryAcquire with the same weight; (R4) the no-op permit is constructed only by the acquisition wrappers and the operator RPC entry points; (R5) every uTP call that waits for the peer (accept, dial, read-to-EOF, write) is given a context made by context.WithTimeout/WithDeadline, so a holder reaches its release when the peer stays silent; (R6) the fields that hold the semaphores and their holder are assigned only while their owner is being built (the limiter is never replaced while permits are out) and the semaphore holder is created only where the shared uTP transport service is built (one limiter per socket, not per sub-network). An acquisition wrapper answers 'no' only on the failed edge of its TryAcquire. Not decided: peak concurrency as a number; behaviour of uTP timeouts; slots held by requests still queued at shutdown (observation)."
 	r.Assumptions = []string{"golang.org/x/sync/semaphore is correct", "goroutines started with a permit run to one of their exits once their uTP waits time out (R5 checks that every wait has a deadline)", "panics are not exits"}
-	r.Floor("R1.acquire-site", 2)
+	r.Floor("R1.acquire-site", 4)
 	r.Floor("R2.discharge", 4)
 	r.Floor("R3.release-once", 3)
 	r.Floor("R4.no-permit", 3)
@@ -98,6 +98,37 @@ func c16(c *Ctx) {
 				wrappers = append(wrappers, fn)
 				changed = true
 			}
+		}
+	}
+	// a slot is refused only by the semaphore: the wrapper says "no" only on the path where its
+	// TryAcquire failed. A refusal decided by anything else (a cached "full" flag, a counter kept
+	// beside the semaphore) can outlive the condition it copies, and then slots that were all
+	// given back are not available
+	for _, w := range wrappers {
+		acq := core.CallsTo(w, semTryAcquire)
+		if len(acq) == 0 {
+			continue
+		}
+		failed := core.AnyFact(func(f core.Fact) bool {
+			if f.Op != token.ILLEGAL || f.Truth {
+				return false
+			}
+			cc, ok := core.Unwrap(f.V).(*ssa.Call)
+			return ok && core.CalleeID(cc) == semTryAcquire
+		})
+		for i, ret := range core.Returns(w) {
+			if len(ret.Results) != 2 {
+				continue
+			}
+			okv := core.ResolveSpill(ret.Results[1])
+			if c, isC := okv.(*ssa.Const); isC && c.Value != nil && c.Value.String() == "true" {
+				continue
+			}
+			if cc, isCall := core.Unwrap(okv).(*ssa.Call); isCall && core.CalleeID(cc) == semTryAcquire {
+				continue // returns the semaphore's own answer
+			}
+			wp := core.InstrGuarded(ret, failed, nil)
+			r.Check(wp == nil, "R1.acquire-site", fmt.Sprintf("%s refusal #%d only-by-semaphore", core.FuncName(w), i+1), p.Pos(ret.Pos()), "a slot is refused only where TryAcquire failed", "a slot can be refused without the semaphore having been asked (the refusal is decided by state kept beside the semaphore, which can be stale when every slot has been given back): "+p.PathString(wp))
 		}
 	}
 	ts := core.NewTypeState(p, permitSpec)
